@@ -22,7 +22,7 @@ def check(ctx):
     if isinstance(r, X): ctx.compare("R1-alpha-cubic", key, r, want, ctx.repo.where(key, fn), detail="alpha(psll) must be the published cubic")
     else: ctx.unknown("R1-alpha-cubic", key, f"kaiser_alpha not recognised: {r!r}"[:200], ctx.repo.where(key, fn))
     check_window_config(ctx, rule="R2-alpha-flows-from-psll", overlap=False)
-    check_dispatch(ctx, rule_prefix="R3.", want_roles=True, kaisers=(True,), roles=("L", "w"))
+    check_dispatch(ctx, rule_prefix="R3.", want_roles=True, kaisers=(True,), roles=("L", "w", "omega"))
     check_cache_keys(ctx, rule="R4-cache-key", about=("window",))
     from ..dtypes import check_dtypes
     check_dtypes(ctx)
